@@ -209,6 +209,7 @@ class FakeUnixTransport(FakeTransport):
 ERR_KINDS = [
     ('Odd-length string', 'oddLength'),
     ('Non-hexadecimal digit found', 'nonHex'),
+    ('Invalid cookie context name', 'badContext'),
     ('not enough values to unpack', 'arity'),
     ('too many values to unpack', 'arity'),
     ('writeable by other users', 'perms'),
@@ -255,8 +256,7 @@ class Session:
             self.delivered += data
         # every complete line delivered so far (whatever the reads were) must have reached the
         # authenticator, unless the connection was closed or the handshake is over
-        if (self.undispatched is None and not self.p._authenticated and not self.t.disconnecting
-                and self.crash is None):
+        if self.undispatched is None and not self.p._authenticated and not self.t.disconnecting:
             complete = self.delivered.count(CRLF)
             handed = sum(1 for e in self.log if e[0] == 'R')
             if handed < complete:
@@ -265,43 +265,48 @@ class Session:
     def _feed(self, data):
         try:
             self.p.dataReceived(data)
-        except UnicodeDecodeError:
-            # Twisted: an exception escaping dataReceived loses the connection
-            self.log.append(('C',))
-            self.t.disconnecting = True
-        except Exception as e:     # anything else is not expected at all
+        except Exception as e:
+            # Twisted: an exception escaping dataReceived loses the connection - whatever its type, the
+            # outcome for the statement is "the connection is closed" (the type is recorded in the evidence)
             self.crash = type(e).__name__
-            self.log.append(('X', type(e).__name__))
+            self.log.append(('C',))
             self.t.disconnecting = True
 
     def events(self, raw=False):
-        """Canonical events; binary writes after authentication are returned separately.
-        raw=True keeps the text of the client's ERROR lines (otherwise reduced to the failure kind)."""
-        evs, binary_writes, bad = [], 0, []
-        authed = False
+        """Canonical events.  What the client wrote is rebuilt as one byte stream (write and writeSequence
+        alike): an optional leading NUL, then lines up to and including BEGIN, then binary data.  Returns
+        (events, binary data seen before any BEGIN).  raw=True keeps the text of the client's ERROR lines
+        (otherwise reduced to the failure kind)."""
+        evs = []
+        pending = b''
+        begun = False
+        started = False
         for e in self.log:
             if e[0] == 'A':
-                authed = True
                 evs.append('A')
             elif e[0] == 'C':
                 evs.append('C')
             elif e[0] == 'R':
                 evs.append('R:' + hx(e[1]))
-            elif e[0] == 'X':
-                evs.append('X:' + e[1])
-            elif e[0] == 'ws' and len(e[1]) == 2 and e[1][1] == CRLF and not authed:
-                line = e[1][0]
-                if line.startswith(b'ERROR ') and not raw:   # only the cookie step writes ERROR: keep the kind
-                    line = b'ERROR ' + error_kind(line[6:]).encode()
-                evs.append('S:' + hx(line))
-            elif e[0] == 'w' and e[1] == b'\0' and not evs:
-                evs.append('N')
-            elif e[0] == 'w' and authed:
-                binary_writes += 1
-            else:
-                bad.append(e)
-                evs.append('W:' + repr(e)[:60])
-        return evs, binary_writes, bad
+            elif e[0] in ('w', 'ws'):
+                data = e[1] if e[0] == 'w' else b''.join(e[1])
+                if begun:
+                    continue                       # binary phase (Hello ...)
+                if not started:
+                    started = True
+                    if data[:1] == b'\0':
+                        evs.append('N')
+                        data = data[1:]
+                pending += data
+                while CRLF in pending and not begun:
+                    line, pending = pending.split(CRLF, 1)
+                    if line == b'BEGIN':
+                        begun = True
+                    if line.startswith(b'ERROR ') and not raw:   # only the cookie step writes ERROR: keep the kind
+                        line = b'ERROR ' + error_kind(line[6:]).encode()
+                    evs.append('S:' + hx(line))
+        # bytes written in line mode that never became a line (e.g. a message sent before BEGIN)
+        return evs, (pending if not begun else b'')
 
     def final(self):
         p, a = self.p, self.p._vauth
@@ -316,7 +321,7 @@ class Session:
                    'none' if guid is None else hx(guid)))
 
     def canonical(self):
-        evs, _, _ = self.events()
+        evs, _ = self.events()
         return ' '.join(evs) + ' | ' + self.final()
 
 
@@ -342,26 +347,32 @@ def split_cmd(line):
 
 
 def valid_guid(args):
-    a = args.strip()
-    return len(a) > 0 and len(a) % 2 == 0 and all(c in HEXDIGITS for c in a)
+    """`OK <guid> ...`: the first argument is a non-empty, even number of hex digits."""
+    toks = args.split()
+    if not toks:
+        return False
+    a = toks[0]
+    return len(a) % 2 == 0 and all(c in HEXDIGITS for c in a)
 
 
-def monitor(world, unix, evs, binary_writes, bad, authed_flag):
-    """Returns a list of (key, what) for every part of the statement that the trace breaks."""
+def is_subsequence_without_repetition(xs, ys):
+    if len(set(xs)) != len(xs):
+        return False
+    it = iter(ys)
+    return all(any(x == y for y in it) for x in xs)
+
+
+def monitor(world, unix, evs, early_binary):
+    """Returns a list of (key, what) for every part of the statement that the trace breaks.  Written from
+    the statement only; where the statement is silent the monitor is silent (a client may write a last
+    line before closing, may skip mechanisms, may close where it could have gone on only if nothing is left)."""
     out = []
     pref = world.preference
     ev = [(e[:1], unhx(e[2:]) if e[:2] in ('R:', 'S:') else None) for e in evs]
-    if bad:
-        out.append(('unexpected-transport-use', 'unexpected use of the transport during the handshake: %r' % (bad[:2],)))
-    if any(e.startswith('X:') for e in evs):
-        out.append(('exception-escapes-datareceived',
-                    'an exception other than the documented ones escapes dataReceived: %s'
-                    % [e for e in evs if e.startswith('X:')][0]))
     ok_seen = neg_after_ok = fd_answer = False
     ok_ever = False
     auth_sent = []
     begins = 0
-    closed = False
     a_seen = False
     last_r = None
     for i, (k, line) in enumerate(ev):
@@ -369,6 +380,7 @@ def monitor(world, unix, evs, binary_writes, bad, authed_flag):
             cmd, args = split_cmd(line)
             if cmd == b'OK' and valid_guid(args):
                 ok_seen = ok_ever = True
+            pending_fd = unix and neg_after_ok and not fd_answer
             if cmd in (b'AGREE_UNIX_FD', b'ERROR') and neg_after_ok:
                 fd_answer = True
             last_r = (cmd, args)
@@ -388,20 +400,27 @@ def monitor(world, unix, evs, binary_writes, bad, authed_flag):
                     key = 'stall-after-' + cmd.decode('ascii', 'replace')[:20]
                 out.append((key, 'server line %r (current mechanism %r) is neither answered nor closes the '
                                  'connection: the handshake stalls' % (line[:60], mech)))
-            if cmd not in SERVER_WORDS:
-                if 'C' not in kinds or 'S' in kinds:
-                    out.append(('unknown-line-does-not-close',
-                                'a line outside the protocol (%r) does not close the connection' % (line[:60],)))
-            exhausted = len(auth_sent) >= len(pref)
-            pending_fd = unix and neg_after_ok and not fd_answer_before(ev, i)
-            if exhausted and (cmd == b'REJECTED' or (cmd == b'ERROR' and not pending_fd)):
-                if 'C' not in kinds or 'S' in kinds:
-                    out.append(('exhausted-does-not-close',
-                                '%r after every mechanism was offered does not close the connection'
-                                % (cmd,)))
+            if cmd not in SERVER_WORDS and 'C' not in kinds:
+                out.append(('unknown-line-does-not-close',
+                            'a line outside the protocol (%r) does not close the connection' % (line[:60],)))
+            moving = cmd == b'REJECTED' or (cmd == b'ERROR' and not pending_fd)
+            exhausted = set(pref) <= set(auth_sent)
+            if moving and exhausted and 'C' not in kinds:
+                out.append(('exhausted-does-not-close',
+                            '%r after every mechanism was offered does not close the connection' % (cmd,)))
+            # "moves on after REJECTED or ERROR": only demanded when the client followed the list so far
+            # (no mechanism skipped) and the server did not exclude everything that is left
+            if moving and not exhausted and auth_sent == pref[:len(auth_sent)]:
+                left = pref[len(auth_sent):]
+                offered_by_server = args.split() if cmd == b'REJECTED' else []
+                may_skip = bool(offered_by_server) and not any(m in offered_by_server for m in left)
+                nxt = [split_cmd(r[1])[1].split(b' ')[0] for r in react
+                       if r[0] == 'S' and split_cmd(r[1])[0] == b'AUTH']
+                if not may_skip and not any(m in left for m in nxt):
+                    out.append(('does-not-move-on-after-' + cmd.decode().lower(),
+                                '%r while %r have not been tried: the client does not offer another mechanism (%s)'
+                                % (cmd, left, 'it closes' if 'C' in kinds else 'no AUTH line')))
         elif k == 'S':
-            if closed:
-                out.append(('writes-after-close', 'the client writes %r after closing the connection' % (line[:40],)))
             if a_seen:
                 out.append(('auth-line-after-begin', 'the client writes the line %r after BEGIN' % (line[:40],)))
             cmd, args = split_cmd(line)
@@ -426,48 +445,36 @@ def monitor(world, unix, evs, binary_writes, bad, authed_flag):
                 elif unix and not (neg_after_ok and fd_answer):
                     out.append(('begin-without-fd-answer',
                                 'on a UNIX transport BEGIN is sent before the descriptor negotiation was answered'))
-        elif k == 'C':
-            closed = True
         elif k == 'A':
             a_seen = True
-            if i == 0 or ev[i - 1] != ('S', b'BEGIN'):
-                out.append(('authenticated-without-begin', 'connectionAuthenticated() runs without BEGIN just before it'))
-    if auth_sent != pref[:len(auth_sent)]:
-        out.append(('auth-lines-not-prefix-of-preference',
-                    'mechanisms offered %r are not a prefix of the preference list %r' % (auth_sent, pref)))
-    if authed_flag != (begins > 0) or a_seen != (begins > 0):
+            if begins == 0:
+                out.append(('authenticated-without-begin', 'connectionAuthenticated() runs although BEGIN was not sent'))
+    if not is_subsequence_without_repetition(auth_sent, pref):
+        out.append(('mechanisms-not-in-preference-order',
+                    'mechanisms offered %r are not an order-preserving, repetition-free selection from the '
+                    'preference list %r' % (auth_sent, pref)))
+    if a_seen != (begins > 0):
         out.append(('authenticated-flag-differs-from-begin',
-                    'authenticated=%s, connectionAuthenticated ran=%s, BEGIN sent %d times'
-                    % (authed_flag, a_seen, begins)))
-    if binary_writes and not a_seen:
-        out.append(('binary-before-authenticated', 'binary data written before the handshake completed'))
+                    'BEGIN sent %d times but connectionAuthenticated %s: the client does not switch to binary '
+                    'messages after BEGIN' % (begins, 'ran' if a_seen else 'never ran')))
+    if early_binary:
+        out.append(('binary-before-begin', 'data that is not a handshake line is written before BEGIN: %r'
+                    % (early_binary[:40],)))
     return out
-
-
-def fd_answer_before(ev, i):
-    """Was the most recent NEGOTIATE_UNIX_FD (before position i) already answered by AGREE/ERROR?"""
-    last_neg = None
-    for j in range(i):
-        if ev[j] == ('S', b'NEGOTIATE_UNIX_FD'):
-            last_neg = j
-    if last_neg is None:
-        return True
-    for j in range(last_neg + 1, i):
-        if ev[j][0] == 'R' and split_cmd(ev[j][1])[0] in (b'AGREE_UNIX_FD', b'ERROR'):
-            return True
-    return False
 
 
 def judge(ctx, world, stream, case, envs, model_out):
     s = run_impl(world, case, envs)
     impl = s.canonical()
-    evs, bw, bad = s.events()
+    evs, early = s.events()
     ctx.impl_trace()
+    if s.crash:
+        ctx.stat('exception-out-of-dataReceived:' + s.crash)
     nlines = sum(1 for e in evs if e.startswith('R:'))
     ctx.case(stream, sample=case, nontrivial=nlines > 0)
     if model_out is not None and model_out != impl:
         ctx.disagree(stream, case, model_out, impl)
-    for key, what in monitor(world, case['unix'], evs, bw, bad, bool(s.p._authenticated)):
+    for key, what in monitor(world, case['unix'], evs, early):
         ctx.violation(key, what, inp=dict(case, kind='run'), observed=impl,
                       expected='see the property statement of C07')
     judge_splitting(ctx, world, case, envs, s, impl)
@@ -708,7 +715,7 @@ class RefServer:
         return [b'ERROR']
 
 
-SRV = dict(guid_hex=b'1234deadbeef', ctxname=b'ctxa', cid=b'7', cookie=b'c00c1e', challenge=b'feedface')
+SRV = dict(guid_hex=b'6abbe624c672777bd87ab46e00027706', ctxname=b'ctxa', cid=b'7', cookie=b'c00c1e', challenge=b'feedface')
 MECHS = (b'EXTERNAL', b'DBUS_COOKIE_SHA1', b'ANONYMOUS')
 
 
@@ -732,7 +739,7 @@ def spec_handshake(world, envs, cfg, deliver=None):
     transcript = []
     done = 0   # client lines already delivered
     for _ in range(32):
-        evs, _, _ = s.events(raw=True)
+        evs, _ = s.events(raw=True)
         sent = [unhx(e[2:]) for e in evs if e.startswith('S:')]
         new = sent[done:]
         done = len(sent)
@@ -844,8 +851,8 @@ def judge_handshake(ctx, world, envs, cfg, shown, m, deliver=None, base=None):
                       'the handshake against the reference server runs differently when its answers are '
                       'delivered %s' % shown.get('delivery'),
                       inp=dict(shown, kind='hs'), observed=impl, expected=base)
-    evs, bw, bad = s.events()
-    for key, what in monitor(world, cfg['unix'], evs, bw, bad, bool(s.p._authenticated)):
+    evs, early = s.events()
+    for key, what in monitor(world, cfg['unix'], evs, early):
         ctx.violation(key, what, inp=dict(shown, kind='hs'), observed=impl, expected='see the property statement of C07')
     if expected_complete(cfg, envs) and not done:
         key, what = hs_key(transcript)
@@ -881,7 +888,7 @@ def run_real_bus(ctx, world, envs, tmp):
             return struct.pack('3i', os.getpid(), os.geteuid(), os.getegid())
 
     class FakeBus:
-        uuid = b'1234deadbeef'
+        uuid = b'6abbe624c672777bd87ab46e00027706'
 
         def clientConnected(self, p):
             pass
@@ -960,9 +967,9 @@ def one_real_bus(ctx, world, envs, Srv, FakeSocket, FakeFactory, acc, unix, dnam
         ctx.stat('realbus-split:%s' % outcome)
     ctx.case('handshake-real-bus', sample={'accepts': name, 'unix': unix, 'delivery': dname})
     ctx.impl_trace()
-    evs, bw, bad = s.events()
+    evs, early = s.events()
     inp = {'kind': 'realbus', 'accepts': [m.decode() for m in acc], 'unix': unix, 'delivery': dname}
-    for key, what in monitor(world, unix, evs, bw, bad, bool(s.p._authenticated)):
+    for key, what in monitor(world, unix, evs, early):
         ctx.violation(key, what, inp=inp, observed=' '.join(evs), expected='see the property statement of C07')
     if s.undispatched is not None:
         ctx.violation('complete-line-not-dispatched',
